@@ -1,7 +1,297 @@
-//! C16, part `ieee802154` (placeholder while the Ethernet part is being brought up).
+//! C16, part `ieee802154`: own minimal IEEE 802.15.4 MAC header codec and
+//! RFC 6282 IPHC / UDP-NHC decoder (stateless modes only), independent of
+//! smoltcp::wire, plus the case entry point (the world and the oracle are
+//! shared with the Ethernet part in c16.rs).
+
+use vkit::indep::{Ip6, PROTO_UDP};
 use vkit::runner::Fail;
 use vkit::{Ctx, Src};
 
-pub fn case(_src: &mut Src, _ctx: &mut Ctx) -> Result<(), Fail> {
-    Ok(())
+pub fn case(src: &mut Src, ctx: &mut Ctx) -> Result<(), Fail> {
+    super::run(src, ctx, true)
+}
+
+// ------------------------------------------------------------------ IEEE 802.15.4 MAC header
+
+#[derive(Clone, Debug)]
+#[allow(dead_code)]
+pub struct Mac154 {
+    pub frame_type: u8,
+    pub seq: u8,
+    pub dst_pan: Option<u16>,
+    /// canonical (most significant octet first) form, 2 or 8 octets
+    pub dst: Option<Vec<u8>>,
+    pub src: Option<Vec<u8>>,
+    pub payload: Vec<u8>,
+}
+
+/// Frame control, sequence number, addressing fields of a 2003/2006 frame without security.
+pub fn decode_154(b: &[u8]) -> Result<Mac154, String> {
+    if b.len() < 3 {
+        return Err("802.15.4: shorter than frame control + sequence number".into());
+    }
+    let fc = u16::from_le_bytes([b[0], b[1]]);
+    let frame_type = (fc & 7) as u8;
+    let security = fc & 0x0008 != 0;
+    let pan_comp = fc & 0x0040 != 0;
+    let dst_mode = (fc >> 10) & 3;
+    let version = (fc >> 12) & 3;
+    let src_mode = (fc >> 14) & 3;
+    if version > 1 {
+        return Err(format!("802.15.4: frame version {} not handled", version));
+    }
+    if security {
+        return Err("802.15.4: security enabled".into());
+    }
+    let mut at = 3;
+    let take = |at: &mut usize, n: usize| -> Result<Vec<u8>, String> {
+        if *at + n > b.len() {
+            return Err("802.15.4: truncated addressing fields".into());
+        }
+        let v = b[*at..*at + n].to_vec();
+        *at += n;
+        Ok(v)
+    };
+    let alen = |mode: u16| -> Result<usize, String> {
+        match mode {
+            0 => Ok(0),
+            2 => Ok(2),
+            3 => Ok(8),
+            _ => Err("802.15.4: reserved addressing mode".into()),
+        }
+    };
+    let (dl, sl) = (alen(dst_mode)?, alen(src_mode)?);
+    let mut dst_pan = None;
+    let mut dst = None;
+    if dl > 0 {
+        let p = take(&mut at, 2)?;
+        dst_pan = Some(u16::from_le_bytes([p[0], p[1]]));
+        let mut a = take(&mut at, dl)?;
+        a.reverse();
+        dst = Some(a);
+    }
+    let mut src = None;
+    if sl > 0 {
+        if !(pan_comp && dl > 0) {
+            take(&mut at, 2)?;
+        }
+        let mut a = take(&mut at, sl)?;
+        a.reverse();
+        src = Some(a);
+    }
+    Ok(Mac154 { frame_type, seq: b[2], dst_pan, dst, src, payload: b[at..].to_vec() })
+}
+
+/// Data frame, 2003 version, PAN id compression, both addresses present.
+pub fn encode_154(seq: u8, pan: u16, dst: &[u8], src: &[u8], payload: &[u8]) -> Vec<u8> {
+    let mode = |a: &[u8]| -> u16 {
+        match a.len() {
+            2 => 2,
+            8 => 3,
+            _ => panic!("802.15.4 address of {} octets", a.len()),
+        }
+    };
+    let fc: u16 = 1 | 0x0040 | (mode(dst) << 10) | (mode(src) << 14);
+    let mut b = fc.to_le_bytes().to_vec();
+    b.push(seq);
+    b.extend_from_slice(&pan.to_le_bytes());
+    b.extend(dst.iter().rev());
+    b.extend(src.iter().rev());
+    b.extend_from_slice(payload);
+    b
+}
+
+// ------------------------------------------------------------------ 6LoWPAN
+
+pub enum Lowpan {
+    /// an IPv6 packet (possibly only its first fragment: `first_fragment`)
+    Packet { ip: Ip6, first_fragment: bool },
+    /// a subsequent fragment (no IP header inside)
+    FragN,
+}
+
+fn iid_from_l2(l: &[u8]) -> Result<[u8; 8], String> {
+    match l.len() {
+        8 => {
+            let mut i = [0u8; 8];
+            i.copy_from_slice(l);
+            i[0] ^= 0x02;
+            Ok(i)
+        }
+        2 => Ok([0, 0, 0, 0xff, 0xfe, 0, l[0], l[1]]),
+        n => Err(format!("iphc: cannot derive an interface identifier from a {}-octet link-layer address", n)),
+    }
+}
+
+fn link_local(iid: &[u8]) -> [u8; 16] {
+    let mut a = [0u8; 16];
+    a[0] = 0xfe;
+    a[1] = 0x80;
+    a[8..].copy_from_slice(iid);
+    a
+}
+
+/// Decode the 6LoWPAN payload of an 802.15.4 data frame (RFC 4944 fragment
+/// headers, RFC 6282 IPHC with stateless address modes, UDP NHC).
+pub fn decode_lowpan(p: &[u8], l2_src: &[u8], l2_dst: &[u8]) -> Result<Lowpan, String> {
+    if p.is_empty() {
+        return Err("6lowpan: empty payload".into());
+    }
+    let mut p = p;
+    let mut first_fragment = false;
+    if p[0] & 0xf8 == 0xe0 {
+        return Ok(Lowpan::FragN);
+    }
+    if p[0] & 0xf8 == 0xc0 {
+        if p.len() < 4 {
+            return Err("6lowpan: truncated FRAG1 header".into());
+        }
+        first_fragment = true;
+        p = &p[4..];
+    }
+    if p.len() < 2 || p[0] & 0xe0 != 0x60 {
+        return Err(format!("6lowpan: dispatch {:#04x} is not IPHC", p[0]));
+    }
+    let (b0, b1) = (p[0], p[1]);
+    let tf = (b0 >> 3) & 3;
+    let nh_compressed = (b0 >> 2) & 1 == 1;
+    let hlim = b0 & 3;
+    let cid = b1 >> 7 == 1;
+    let sac = (b1 >> 6) & 1 == 1;
+    let sam = (b1 >> 4) & 3;
+    let m = (b1 >> 3) & 1 == 1;
+    let dac = (b1 >> 2) & 1 == 1;
+    let dam = b1 & 3;
+    let mut at = 2;
+    let mut take = |n: usize| -> Result<&[u8], String> {
+        if at + n > p.len() {
+            return Err("iphc: truncated header".into());
+        }
+        let s = &p[at..at + n];
+        at += n;
+        Ok(s)
+    };
+    if cid {
+        take(1)?;
+    }
+    take([4usize, 3, 1, 0][tf as usize])?;
+    let mut proto = 0u8;
+    if !nh_compressed {
+        proto = take(1)?[0];
+    }
+    let hop = match hlim {
+        0 => take(1)?[0],
+        1 => 1,
+        2 => 64,
+        _ => 255,
+    };
+    let mut src = [0u8; 16];
+    if sac {
+        if sam != 0 {
+            return Err("iphc: context-based source address".into());
+        }
+    } else {
+        match sam {
+            0 => src.copy_from_slice(take(16)?),
+            1 => src = link_local(take(8)?),
+            2 => {
+                let s = take(2)?;
+                src = link_local(&[0, 0, 0, 0xff, 0xfe, 0, s[0], s[1]]);
+            }
+            _ => src = link_local(&iid_from_l2(l2_src)?),
+        }
+    }
+    let mut dst = [0u8; 16];
+    if dac {
+        return Err("iphc: context-based destination address".into());
+    }
+    if !m {
+        match dam {
+            0 => dst.copy_from_slice(take(16)?),
+            1 => dst = link_local(take(8)?),
+            2 => {
+                let s = take(2)?;
+                dst = link_local(&[0, 0, 0, 0xff, 0xfe, 0, s[0], s[1]]);
+            }
+            _ => dst = link_local(&iid_from_l2(l2_dst)?),
+        }
+    } else {
+        dst[0] = 0xff;
+        match dam {
+            0 => dst.copy_from_slice(take(16)?),
+            1 => {
+                let s = take(6)?;
+                dst[1] = s[0];
+                dst[11..16].copy_from_slice(&s[1..6]);
+            }
+            2 => {
+                let s = take(4)?;
+                dst[1] = s[0];
+                dst[13..16].copy_from_slice(&s[1..4]);
+            }
+            _ => {
+                dst[1] = 0x02;
+                dst[15] = take(1)?[0];
+            }
+        }
+    }
+    let payload: Vec<u8>;
+    if nh_compressed {
+        let n = take(1)?[0];
+        if n & 0xf8 != 0xf0 {
+            return Err(format!("nhc: header {:#04x} is not UDP", n));
+        }
+        let c_elided = (n >> 2) & 1 == 1;
+        let (sp, dp) = match n & 3 {
+            0 => {
+                let s = take(4)?;
+                (u16::from_be_bytes([s[0], s[1]]), u16::from_be_bytes([s[2], s[3]]))
+            }
+            1 => {
+                let s = take(3)?;
+                (u16::from_be_bytes([s[0], s[1]]), 0xf000 | s[2] as u16)
+            }
+            2 => {
+                let s = take(3)?;
+                (0xf000 | s[0] as u16, u16::from_be_bytes([s[1], s[2]]))
+            }
+            _ => {
+                let s = take(1)?[0];
+                (0xf0b0 | (s >> 4) as u16, 0xf0b0 | (s & 0xf) as u16)
+            }
+        };
+        let csum = if c_elided {
+            [0u8, 0]
+        } else {
+            let s = take(2)?;
+            [s[0], s[1]]
+        };
+        let data = &p[at..];
+        let mut u = vec![];
+        u.extend_from_slice(&sp.to_be_bytes());
+        u.extend_from_slice(&dp.to_be_bytes());
+        u.extend_from_slice(&((8 + data.len()) as u16).to_be_bytes());
+        u.extend_from_slice(&csum);
+        u.extend_from_slice(data);
+        proto = PROTO_UDP;
+        payload = u;
+    } else {
+        payload = p[at..].to_vec();
+    }
+    let mut ip = Ip6::new(src, dst, proto, payload);
+    ip.hop = hop;
+    Ok(Lowpan::Packet { ip, first_fragment })
+}
+
+/// IPHC encoding with everything in-line (TF elided, next header, hop limit and
+/// both addresses carried in full), followed by the uncompressed upper layer.
+pub fn encode_iphc_plain(ip: &Ip6) -> Vec<u8> {
+    assert!(ip.ext.is_empty());
+    let mut b = vec![0x78, if ip.dst[0] == 0xff { 0x08 } else { 0x00 }];
+    b.push(ip.proto);
+    b.push(ip.hop);
+    b.extend_from_slice(&ip.src);
+    b.extend_from_slice(&ip.dst);
+    b.extend_from_slice(&ip.payload);
+    b
 }
